@@ -41,7 +41,9 @@ for fn, lib in [('acos', 'ext("math.Acos", "float64", X)'), ('asin', 'ext("math.
 
 emit('truncFunctionCalculator', 'len(parameters) == 1', 'Long',
      ['callsite[C08] Convert requires value == parameters[0] && newType == variants.Double',
-      'callsite[C08] Trunc requires box(arg0) == caller_value.value'],
+      'callsite[C08] Trunc requires box(arg0) == caller_value.value',
+      # "never a silently substituted value": the integer part handed on is a number within the range of a long
+      'callsite[C08] VariantFromLong requires !isnan(caller_truncated) && caller_truncated >= f64(-9223372036854775808.0) && caller_truncated < f64(9223372036854775808.0)'],
      doc='integral part of the argument converted to Double, as a Long')
 
 # constants and clocks
